@@ -24,7 +24,7 @@ P = {
  "C06": ("exploration", "property-based testing (proptest): generated key universes x overlapping sources x merge functions with a call log + bounded-exhaustive enumeration of every key-to-source assignment over 3 keys x 3 sources; oracle = union model, exactly-once merge calls in source order",
          "0..8 sources drawn as random subsets of a key universe, each written with its own configuration, are merged with four merge functions (owned and borrowed results); the call log proves one call per shared key with the values in the order the sources were added; write_into_stream_writer is read back.",
          "Merge functions used return a lone value unchanged, as the property requires. Trusted: BTreeMap union model.", "5 C06"),
- "C07": ("exploration", "property-based testing (proptest): generated insert sequences x sorter configurations (hooked small budgets, public API), oracle = group-by-key model with insertion order, three exits compared",
+ "C07": ("exploration", "property-based testing (proptest): generated insert sequences x sorter configurations (hooked small budgets, public API) + bounded-exhaustive enumeration of every insert sequence of length <= 7 (thorough 9) over 3 keys x 5 value sizes (4 spill rhythms + empty values) x max_nb_chunks 1..3 x stable/unstable x 4 merge functions; oracle = group-by-key model with insertion order, three exits compared",
          "Three identically fed sorters are drained through streaming, write_into_stream_writer and into_reader_cursors (merged by the harness); each must equal the model (stable: insertion order; unstable: permutation) for budgets of 256 B..1 MiB, realloc on/off, max_nb_chunks 1..25, sequential/parallel, all chunk codecs, CursorVec/TempFile/instrumented chunk storage.",
          "Hook H1 shrinks budgets so that spills and chunk merges happen after tens of inserts; a public-API stage runs without hooks. rayon schedules are sampled, not enumerated.", "5 C07"),
  "C08": ("exploration", "property-based testing (proptest): long generated insert streams with an instrumented chunk creator; invariants checked after every insert",
